@@ -340,6 +340,99 @@ pub enum Kind {
     // MapInstructions
     MapGet,
     MapInsert,
+    /// operand provenance: the shaped operation `inner` with some operands taken from CONSTANT
+    /// cells (`assign_fixed`, cached by value inside the chips) instead of witness cells; the
+    /// input list holds the remaining (witness) operands only
+    Fixed { inner: Box<Kind>, consts: Vec<Option<V>> },
+    /// short composition: a source that records a bound / "already constrained" fact about a
+    /// native cell, followed by operations that may rely on it
+    Chain { src: Src, steps: Vec<Step> },
+}
+
+/// where the native cell of a composition comes from
+#[derive(Clone, Debug)]
+pub enum Src {
+    /// assign a byte, convert byte -> native
+    Byte,
+    /// assign a bit, convert bit -> native
+    Bit,
+    /// plain witness assignment
+    Native,
+    /// `assign_lower_than_fixed(x, b)`
+    AssignLower(BigUint),
+    /// native -> `assigned_to_le_bytes(Some(nb))` -> `assigned_from_le_bytes`
+    BytesRoundTrip(usize),
+}
+
+/// one later operation on the native cell
+#[derive(Clone, Debug)]
+pub enum Step {
+    AssertLower(BigUint),
+    /// `bounded_of_element(n)` then the fixed comparison with `c`
+    CmpFixed { op: CmpOp, n: usize, c: F },
+    /// `bounded_of_element(n)` + `element_of_bounded`
+    BoundedOf(usize),
+    /// convert native -> byte
+    ToByte,
+    /// convert native -> bit
+    ToBit,
+}
+
+impl Step {
+    fn name(&self) -> String {
+        match self {
+            Step::AssertLower(_) => "assert_lower_than_fixed".into(),
+            Step::CmpFixed { op, .. } => format!(
+                "{}_fixed",
+                match op {
+                    CmpOp::Lt => "lower_than",
+                    CmpOp::Gt => "greater_than",
+                    CmpOp::Leq => "leq",
+                    CmpOp::Geq => "geq",
+                }
+            ),
+            Step::BoundedOf(_) => "bounded_of_element".into(),
+            Step::ToByte => "convert<native->byte>".into(),
+            Step::ToBit => "convert<native->bit>".into(),
+        }
+    }
+    fn label(&self) -> String {
+        match self {
+            Step::AssertLower(b) => format!("assert_lower_than_fixed({})", bhex(b)),
+            Step::CmpFixed { n, c, .. } => format!("{}(n={n},c={})", self.name(), fhex(c)),
+            Step::BoundedOf(n) => format!("bounded_of_element({n})"),
+            _ => self.name(),
+        }
+    }
+    /// bounds this step compares against (operand classes are built around them)
+    pub fn bounds(&self) -> Vec<BigUint> {
+        match self {
+            Step::AssertLower(b) => vec![b.clone()],
+            Step::CmpFixed { n, c, .. } => vec![big(c), two_pow(*n)],
+            Step::BoundedOf(n) => vec![two_pow(*n)],
+            Step::ToByte => vec![BigUint::from(256u32)],
+            Step::ToBit => vec![BigUint::from(2u32)],
+        }
+    }
+}
+
+impl Src {
+    fn name(&self) -> String {
+        match self {
+            Src::Byte => "convert<byte->native>".into(),
+            Src::Bit => "convert<bit->native>".into(),
+            Src::Native => "assign".into(),
+            Src::AssignLower(_) => "assign_lower_than_fixed".into(),
+            Src::BytesRoundTrip(_) => "assigned_to_le_bytes+assigned_from_le_bytes".into(),
+        }
+    }
+    pub fn ty(&self) -> Ty {
+        match self {
+            Src::Byte => Ty::Y,
+            Src::Bit => Ty::B,
+            _ => Ty::N,
+        }
+    }
 }
 
 pub const VEC_SHAPES: &[(usize, usize)] = &[(8, 4), (6, 2), (6, 3), (4, 1)];
@@ -409,6 +502,8 @@ impl Kind {
             Convert { .. } | ConvertUnsafeNY => "ConversionInstructions",
             VecObserve { .. } | VecFlags { .. } | VecTrim { .. } | VecResize { .. } => "VectorInstructions",
             MapGet | MapInsert => "MapInstructions",
+            Fixed { inner, .. } => inner.trait_name(),
+            Chain { .. } => "compositions",
         }
     }
 
@@ -496,6 +591,8 @@ impl Kind {
             VecResize { .. } => "vector.resize".into(),
             MapGet => "map.get".into(),
             MapInsert => "map.insert+succinct_repr".into(),
+            Fixed { inner, .. } => format!("{}(fixed operands)", inner.name()),
+            Chain { src, steps } => format!("chain:{}+{}", src.name(), steps.iter().map(|s| s.name()).collect::<Vec<_>>().join("+")),
         }
     }
 
@@ -526,6 +623,33 @@ impl Kind {
             VecObserve { t, m, a, .. } | VecFlags { t, m, a } => format!("{},M={m},A={a}", t.tag()),
             VecTrim { t, m, a, n } => format!("{},M={m},A={a},n={n}", t.tag()),
             VecResize { t, m, a, l } => format!("{},M={m},A={a},L={l}", t.tag()),
+            Fixed { inner, consts } => {
+                let il = inner.label();
+                let params = il.strip_prefix(&inner.name()).unwrap_or("").to_string();
+                format!(
+                    "{}operands=[{}]",
+                    if params.is_empty() { String::new() } else { format!("{params},") },
+                    consts
+                        .iter()
+                        .map(|c| match c {
+                            None => "witness".to_string(),
+                            Some(V::N(x)) => format!("fixed {}", fhex(x)),
+                            Some(V::B(b)) => format!("fixed {b}"),
+                            Some(V::Y(y)) => format!("fixed {y}u8"),
+                        })
+                        .collect::<Vec<_>>()
+                        .join(",")
+                )
+            }
+            Chain { src, steps } => format!(
+                "{}->{}",
+                match src {
+                    Src::AssignLower(b) => format!("assign_lower_than_fixed({})", bhex(b)),
+                    Src::BytesRoundTrip(nb) => format!("le_bytes_round_trip({nb})"),
+                    o => o.name(),
+                },
+                steps.iter().map(|s| s.label()).collect::<Vec<_>>().join("->")
+            ),
             _ => String::new(),
         };
         if extra.is_empty() {
@@ -557,12 +681,16 @@ impl Kind {
             Select(t) | CondAssertEqual(t) | CondSwap(t) => vec![Ty::B, *t, *t],
             Convert { from, .. } => vec![*from],
             ConvertUnsafeNY => vec![Ty::N],
-            AssignLower(_) | VecObserve { .. } | VecFlags { .. } | VecTrim { .. } | VecResize { .. } | MapGet | MapInsert => return None,
+            AssignLower(_) | VecObserve { .. } | VecFlags { .. } | VecTrim { .. } | VecResize { .. } | MapGet | MapInsert | Fixed { .. } | Chain { .. } => return None,
         })
     }
 
     pub fn needs_jubjub(&self) -> bool {
-        matches!(self, Kind::BoundedOf(_) | Kind::Cmp { .. } | Kind::CmpFixed { .. } | Kind::ConvertUnsafeNY)
+        match self {
+            Kind::Fixed { inner, .. } => inner.needs_jubjub(),
+            Kind::Chain { steps, .. } => steps.iter().any(|s| matches!(s, Step::CmpFixed { .. } | Step::BoundedOf(_))),
+            _ => matches!(self, Kind::BoundedOf(_) | Kind::Cmp { .. } | Kind::CmpFixed { .. } | Kind::ConvertUnsafeNY),
+        }
     }
     pub fn needs_poseidon(&self) -> bool {
         matches!(self, Kind::MapGet | Kind::MapInsert)
@@ -570,6 +698,12 @@ impl Kind {
     /// does the entry go through the range-check / decomposition chip (arch knob matters)?
     pub fn uses_range_checks(&self) -> bool {
         use Kind::*;
+        if let Fixed { inner, .. } = self {
+            return inner.uses_range_checks();
+        }
+        if let Chain { .. } = self {
+            return true;
+        }
         matches!(
             self,
             StdLowerThan(_)
@@ -602,12 +736,26 @@ impl Kind {
     /// (inputs violating them are outside the claim and are never generated)
     pub fn precondition(&self, input: &[V]) -> bool {
         match self {
+            Kind::Fixed { inner, consts } => match merge_fixed(consts, input) {
+                Some(full) => inner.precondition(&full),
+                None => false,
+            },
             Kind::DivRem { bound: Some(b), .. } | Kind::Rem { bound: Some(b), .. } => big(&input[0].n()) <= *b,
             Kind::ConvertUnsafeNY => big(&input[0].n()) < BigUint::from(256u32),
             Kind::VecObserve { m, .. } | Kind::VecFlags { m, .. } | Kind::VecTrim { m, .. } | Kind::VecResize { m, .. } => input.len() <= *m,
             _ => true,
         }
     }
+}
+
+/// full operand list of a `Fixed` entry: constants in their positions, witness inputs in the rest
+fn merge_fixed(consts: &[Option<V>], witness: &[V]) -> Option<Vec<V>> {
+    let mut it = witness.iter();
+    let full: Option<Vec<V>> = consts.iter().map(|c| c.clone().or_else(|| it.next().cloned())).collect();
+    if it.next().is_some() {
+        return None;
+    }
+    full
 }
 
 // ---------------------------------------------------------------------------------------------
@@ -1033,13 +1181,103 @@ impl Entry {
                 let y: AssignedByte<F> = ng.convert_unsafe(l, n(0))?;
                 vec![A::Y(y)]
             }
-            AssignLower(_) | VecObserve { .. } | VecFlags { .. } | VecTrim { .. } | VecResize { .. } | MapGet | MapInsert => unreachable!("raw kinds"),
+            AssignLower(_) | VecObserve { .. } | VecFlags { .. } | VecTrim { .. } | VecResize { .. } | MapGet | MapInsert | Fixed { .. } | Chain { .. } => unreachable!("raw kinds"),
         })
     }
 
     fn run_raw<L: Layouter<F>>(&self, s: &ZkStdLib, l: &mut L, w: Value<Vec<V>>) -> Result<(), Error> {
         use Kind::*;
         match &self.kind {
+            Fixed { inner, consts } => {
+                let tys = inner.shape().expect("Fixed wraps a shaped kind");
+                assert_eq!(tys.len(), consts.len(), "harness: operand mask of the wrong length");
+                let mut ins = Vec::with_capacity(tys.len());
+                let mut j = 0;
+                for (ty, c) in tys.iter().zip(consts) {
+                    match c {
+                        Some(c) => ins.push(match (ty, c) {
+                            (Ty::N, V::N(x)) => A::N(s.assign_fixed(l, *x)?),
+                            (Ty::B, V::B(x)) => A::B(s.assign_fixed(l, *x)?),
+                            (Ty::Y, V::Y(x)) => A::Y(s.assign_fixed(l, *x)?),
+                            other => panic!("harness: constant of the wrong type {other:?}"),
+                        }),
+                        None => {
+                            let a = assign_in(s, l, &w, j, *ty)?;
+                            expose(s, l, &a)?;
+                            ins.push(a);
+                            j += 1;
+                        }
+                    }
+                }
+                let outs = Entry { kind: (**inner).clone(), cols: self.cols }.run(s, l, &ins)?;
+                for o in &outs {
+                    expose(s, l, o)?;
+                }
+                Ok(())
+            }
+            Chain { src, steps } => {
+                let n: AssignedNative<F> = match src {
+                    Src::Byte => {
+                        let y: AssignedByte<F> = s.assign(l, w.as_ref().map(|v| v[0].y()))?;
+                        s.constrain_as_public_input(l, &y)?;
+                        ConversionInstructions::<F, AssignedByte<F>, AssignedNative<F>>::convert(s, l, &y)?
+                    }
+                    Src::Bit => {
+                        let b: AssignedBit<F> = s.assign(l, w.as_ref().map(|v| v[0].b()))?;
+                        s.constrain_as_public_input(l, &b)?;
+                        ConversionInstructions::<F, AssignedBit<F>, AssignedNative<F>>::convert(s, l, &b)?
+                    }
+                    Src::Native => {
+                        let x: AssignedNative<F> = s.assign(l, w.as_ref().map(|v| v[0].n()))?;
+                        s.constrain_as_public_input(l, &x)?;
+                        x
+                    }
+                    Src::AssignLower(b) => {
+                        let x: AssignedNative<F> = s.assign_lower_than_fixed(l, w.as_ref().map(|v| v[0].n()), b)?;
+                        s.constrain_as_public_input(l, &x)?;
+                        x
+                    }
+                    Src::BytesRoundTrip(nb) => {
+                        let x: AssignedNative<F> = s.assign(l, w.as_ref().map(|v| v[0].n()))?;
+                        s.constrain_as_public_input(l, &x)?;
+                        let bytes = s.assigned_to_le_bytes(l, &x, Some(*nb))?;
+                        let y: AssignedNative<F> = s.assigned_from_le_bytes(l, &bytes)?;
+                        s.constrain_as_public_input(l, &y)?;
+                        y
+                    }
+                };
+                for st in steps {
+                    match st {
+                        Step::AssertLower(b) => s.assert_lower_than_fixed(l, &n, b)?,
+                        Step::CmpFixed { op, n: k, c } => {
+                            let ng = s.jubjub().native_gadget();
+                            let bx = ng.bounded_of_element(l, *k, &n)?;
+                            let r = match op {
+                                CmpOp::Lt => ng.lower_than_fixed(l, &bx, *c)?,
+                                CmpOp::Gt => ng.greater_than_fixed(l, &bx, *c)?,
+                                CmpOp::Leq => ng.leq_fixed(l, &bx, *c)?,
+                                CmpOp::Geq => ng.geq_fixed(l, &bx, *c)?,
+                            };
+                            s.constrain_as_public_input(l, &r)?;
+                        }
+                        Step::BoundedOf(k) => {
+                            let ng = s.jubjub().native_gadget();
+                            let bx: AssignedBounded<F> = ng.bounded_of_element(l, *k, &n)?;
+                            let e: AssignedNative<F> = ng.element_of_bounded(l, &bx)?;
+                            s.constrain_as_public_input(l, &e)?;
+                        }
+                        Step::ToByte => {
+                            let y = ConversionInstructions::<F, AssignedNative<F>, AssignedByte<F>>::convert(s, l, &n)?;
+                            s.constrain_as_public_input(l, &y)?;
+                        }
+                        Step::ToBit => {
+                            let b = ConversionInstructions::<F, AssignedNative<F>, AssignedBit<F>>::convert(s, l, &n)?;
+                            s.constrain_as_public_input(l, &b)?;
+                        }
+                    }
+                }
+                Ok(())
+            }
             AssignLower(bound) => {
                 let x: AssignedNative<F> = s.assign_lower_than_fixed(l, w.as_ref().map(|v| v[0].n()), bound)?;
                 s.constrain_as_public_input(l, &x)
@@ -1333,7 +1571,7 @@ impl Entry {
                 _ => unreachable!(),
             },
             ConvertUnsafeNY => vec![x[0].n()],
-            VecObserve { .. } | VecFlags { .. } | VecTrim { .. } | VecResize { .. } | MapGet | MapInsert => unreachable!("raw kinds use full_reference"),
+            VecObserve { .. } | VecFlags { .. } | VecTrim { .. } | VecResize { .. } | MapGet | MapInsert | Fixed { .. } | Chain { .. } => unreachable!("raw kinds use full_reference"),
         })
     }
 
@@ -1341,6 +1579,73 @@ impl Entry {
     fn full_reference(&self, x: &[V]) -> Option<(Vec<F>, usize)> {
         use Kind::*;
         match &self.kind {
+            Fixed { inner, consts } => {
+                let full = merge_fixed(consts, x).expect("harness: witness operands do not match the operand mask");
+                let outs = Entry { kind: (**inner).clone(), cols: self.cols }.outputs(&full)?;
+                let mut v: Vec<F> = x.iter().map(|v| v.enc()).collect();
+                let n_in = v.len();
+                v.extend(outs);
+                Some((v, n_in))
+            }
+            Chain { src, steps } => {
+                let val = big(&x[0].enc());
+                let mut v = vec![x[0].enc()];
+                match src {
+                    Src::AssignLower(b) => {
+                        if val >= *b {
+                            return None;
+                        }
+                    }
+                    Src::BytesRoundTrip(nb) => {
+                        if val >= two_pow(8 * nb) {
+                            return None;
+                        }
+                        v.push(x[0].enc()); // the recomposed value is an input-section observation
+                    }
+                    _ => {}
+                }
+                let n_in = v.len();
+                for st in steps {
+                    match st {
+                        Step::AssertLower(b) => {
+                            if val >= *b {
+                                return None;
+                            }
+                        }
+                        Step::CmpFixed { op, n, c } => {
+                            if val >= two_pow(*n) {
+                                return None;
+                            }
+                            let c = big(c);
+                            v.push(fbit(match op {
+                                CmpOp::Lt => val < c,
+                                CmpOp::Gt => val > c,
+                                CmpOp::Leq => val <= c,
+                                CmpOp::Geq => val >= c,
+                            }));
+                        }
+                        Step::BoundedOf(n) => {
+                            if val >= two_pow(*n) {
+                                return None;
+                            }
+                            v.push(x[0].enc());
+                        }
+                        Step::ToByte => {
+                            if val >= BigUint::from(256u32) {
+                                return None;
+                            }
+                            v.push(x[0].enc());
+                        }
+                        Step::ToBit => {
+                            if val >= BigUint::from(2u32) {
+                                return None;
+                            }
+                            v.push(x[0].enc());
+                        }
+                    }
+                }
+                Some((v, n_in))
+            }
             AssignLower(_) => {
                 self.outputs(x)?;
                 Some((vec![x[0].n()], 1))
@@ -1402,6 +1707,9 @@ impl Entry {
             Some(_) => Some(x.iter().map(|v| v.enc()).collect()),
             None => match &self.kind {
                 Kind::AssignLower(_) => Some(vec![x[0].n()]),
+                Kind::Fixed { .. } => Some(x.iter().map(|v| v.enc()).collect()),
+                Kind::Chain { src: Src::BytesRoundTrip(_), .. } => None,
+                Kind::Chain { .. } => Some(vec![x[0].enc()]),
                 _ => None,
             },
         }
@@ -1413,6 +1721,11 @@ impl Entry {
             Some(tys) => tys.len() == x.len() && tys.iter().zip(x).all(|(t, v)| *t == v.ty()),
             None => match &self.kind {
                 Kind::AssignLower(_) => x.len() == 1 && x[0].ty() == Ty::N,
+                Kind::Fixed { inner, consts } => match (inner.shape(), merge_fixed(consts, x)) {
+                    (Some(tys), Some(full)) => tys.len() == full.len() && tys.iter().zip(&full).all(|(t, v)| *t == v.ty()),
+                    _ => false,
+                },
+                Kind::Chain { src, .. } => x.len() == 1 && x[0].ty() == src.ty(),
                 Kind::VecObserve { t, m, .. } | Kind::VecFlags { t, m, .. } | Kind::VecTrim { t, m, .. } | Kind::VecResize { t, m, .. } => {
                     x.len() <= *m && x.iter().all(|v| v.ty() == *t)
                 }
